@@ -123,7 +123,7 @@ def check_tree(n, m, acc):
                 idn = e
             if any("." in k for p in lp for k in p):
                 pass                  # identity is only claimed for keys free of the separator
-            elif not (isinstance(idn, dict) and same(idn, d)):
+            elif not (isinstance(idn, dict) and same(idn, d) and idn == d and d == idn):
                 acc.violation("C18|rollout-of-nested-mapping-not-identity",
                               {"tree": m, "leaves": n, "mapping": safe_repr(d, 400),
                                "got": safe_repr(idn, 400)})
@@ -174,6 +174,8 @@ def check_tree(n, m, acc):
                         except Exception as e:  # noqa: BLE001
                             got = e
                         ok = isinstance(got, dict) and same(got, exp)
+                        if ok and not (got == exp and exp == got):
+                            ok = False      # "an equal nested mapping": plain == must agree too
                         if list(flat.items()) != given:
                             ok = False      # the flat mapping handed in was changed
                         if not ok:
@@ -189,6 +191,25 @@ def check_tree(n, m, acc):
 # keys that are free of one separator but contain another: the same flat key string then means
 # different things under different separators ("x/y.a" is x/y -> a under "." and x -> y.a under "/")
 KEYS_X = ("x", "a", "x/y", "y.a", "x__y", "y/a")
+
+
+class Field(str):
+    """A str subclass key (separator-free string carrying extra information)."""
+
+    def __new__(cls, name, note=""):
+        self = super().__new__(cls, name)
+        self.note = note
+        return self
+
+
+KEYS_F = (Field("a", "first"), Field("b"), Field("x y"))
+
+
+def str_subclass_trees():
+    out = []
+    for n in (1, 2, 3):
+        out += [(n, m) for m in trees(n, 3, KEYS_F)]
+    return out
 
 
 def cross_separator_trees():
@@ -208,6 +229,10 @@ def worker(shard, nshards, tier, seed):
         for n, m in X + X[::-1]:
             acc.count("cross_separator_trees")
             check_tree(n, m, acc)
+    F = str_subclass_trees()
+    for i in range(shard, len(F), nshards):
+        acc.count("str_subclass_key_trees")
+        check_tree(F[i][0], F[i][1], acc)
     for i in range(shard, len(T), nshards):
         n, m = T[i]
         acc.count("trees")
@@ -235,7 +260,8 @@ def run(tier, seed):
         "bounds": {"tier": tier, "max_leaves": BOUND[tier][0], "max_depth": BOUND[tier][1],
                    "keys": KEYS, "separators": SEPS,
                    "also": ("4 leaves, depth 2, keys " + repr(KEYS_T)) if tier == "thorough" else None,
-                   "cross_separator_keys": list(KEYS_X)},
+                   "cross_separator_keys": list(KEYS_X),
+                   "str_subclass_key_trees": acc.n["str_subclass_key_trees"]},
     }
     return acc, cov, ["mappings whose flattening makes two leaves collide on one flat key (only "
                       "possible with the empty key) are skipped",
